@@ -205,3 +205,68 @@ def canon_cells(ctx, F):
                 outs.add((gs, who))
             cells[(a, b)] = outs
     return f, cells
+
+
+# ------------------------------------------------------------------------------------------------
+# try_merge_next_state_as_* : tables over (Option<prev state>, Option<current state>)
+
+MERGERS = {
+    "call": ("call_merger::try_merge_next_state_as_call", "Call"),
+    "canon": ("canon_merger::try_merge_next_state_as_canon", "Canon"),
+    "ap": ("ap_merger::try_merge_next_state_as_ap", "Ap"),
+    "par": ("par_merger::try_merge_next_state_as_par", "Par"),
+    "fold": ("fold_merger::try_merge_next_state_as_fold", "Fold"),
+}
+
+
+def _side(e):
+    s = show(e)
+    p = "prev_slider_mut" in s
+    c = "current_slider_mut" in s
+    if p and not c:
+        return "prev"
+    if c and not p:
+        return "current"
+    return None
+
+
+def next_state_table(F, name):
+    """rows: (prev: None|kind|'other', current: ...) -> set of (result, mentions_prev, mentions_current, helper calls)"""
+    fname, kind = MERGERS[name]
+    f = F.fn(fname, crate="air_trace_handler")
+    prov = Prov(f)
+    rows = {}
+    lock = []
+    for st in lib.enumerate_paths(f, prov, max_paths=60000):
+        sides = {"prev": [None, None], "current": [None, None]}
+        for key, var in st.variants.items():
+            subj = lib.constraint_subject(prov, key)
+            sd = _side(subj)
+            if sd is None:
+                continue
+            if var in ("Some", "None") and not any(p[0] == "dc" for p in key[1]):
+                sides[sd][0] = var
+            elif any(p == ("dc", "Some") for p in key[1]) and len([p for p in key[1] if p[0] == "dc"]) == 1:
+                sides[sd][1] = var
+        def lab(x):
+            if x[0] == "None":
+                return "None"
+            if x[0] == "Some":
+                return x[1] if x[1] is not None else "Some(?)"
+            return "?"
+        row = (lab(sides["prev"]), lab(sides["current"]))
+        pp = PathProv(f, st.blocks)
+        e = pp.local(0)
+        res = lib.path_result(f, st)
+        s = show(e)
+        helpers = tuple(sorted({c.path.split("::")[-1] for c in st.calls if c.local and c.fn is f and
+                                not c.path.endswith(("next_state", "prev_slider_mut", "current_slider_mut")) and "Error" not in c.path}))
+        errc = tuple(sorted({c.path.split("::")[-1] for c in st.calls if "Error" in c.path}))
+        if errc:
+            res = "Err"
+        elif res == "Err" and any(lib.is_from_residual(c.path) for c in st.calls):
+            res = "Prop"      # error of a fallible helper propagated with `?`
+        rows.setdefault(row, set()).add((res, "prev_slider_mut" in s, "current_slider_mut" in s, helpers))
+        ns = [c for c in st.calls if c.path.endswith("TraceSlider::next_state")]
+        lock.append((row, sorted(_side(prov.operand(c.args[0])) or "?" for c in ns)))
+    return f, kind, rows, lock
